@@ -404,6 +404,27 @@ def _ok_blocks(b):
     return out
 
 
+def _always_inserts(fx, b, depth=0):
+    """every path from the entry of `b` to a return passes an insertion into a map, or a call of a FontBuilder function that always inserts"""
+    import reach
+    through = _insert_blocks(fx, b, depth)
+    rets = [bi for bi in range(len(b.blocks)) if b.reachable(bi) and b.term(bi)["k"] == "return"]
+    return bool(through) and bool(rets) and reach.must_pass(b, 0, rets, through)
+
+
+def _insert_blocks(fx, b, depth=0):
+    out = []
+    for bi, t in b.calls():
+        p = str(t["callee"].get("path") or "")
+        if p.endswith("::insert"):
+            out.append(bi)
+        elif depth < 2 and re.match(r"^subset::FontBuilder(WithHead)?::\w+$", p) and not p.endswith(("::add_table_inner", "::add_table")):
+            hb = fx.body(p)
+            if hb is not None and hb is not b and _always_inserts(fx, hb, depth + 1):
+                out.append(bi)
+    return out
+
+
 def t09_add(run, fx, floors=True):
     import reach
     rule = "T09-ADD"
@@ -420,7 +441,7 @@ def t09_add(run, fx, floors=True):
             continue
         short = b.root.split("::", 1)[1]
         if b.root.endswith("::add_table_inner"):
-            through = [bi for bi, t in b.calls() if str(t["callee"].get("path") or "").endswith("BTreeMap::<K, V, A>::insert") or str(t["callee"].get("path") or "").endswith("::insert")]
+            through = _insert_blocks(fx, b)
             what = "the insertion into the table map"
         else:
             through = [bi for bi, t in b.calls() if callee_is(t, "add_table_inner", "FontBuilder::add_table")]
